@@ -30,7 +30,8 @@ from harness.lib.values import DOMAIN, LITERALS, NAN, same, val_json, val_to_coq
 
 LEVEL = "proof"
 THEOREMS = ["C12_compile_correct", "C12_compile_total", "C12_conj", "C12_api_agree", "C12_api_sql", "C12_refused_raises",
-            "C12_strict", "C12_strict_everywhere", "C12_operator_faithful", "C12_operator_table", "C12_project_after"]
+            "C12_strict", "C12_strict_everywhere", "C12_operator_faithful", "C12_operator_table", "C12_project_after",
+            "C12_api_agree_empty_projection_refuted"]
 GEN_FILES = ["GenFilter.v", "GenFilterConst.v", "GenPrune.v"]
 REQ = ["DS.Model.Value", "DS.Model.FilterExpr", "DS.Gen.GenPrune", "DS.Model.Prune", "DS.Gen.GenFilterConst", "DS.Gen.GenFilter",
        "DS.Model.Filter"]
@@ -507,7 +508,7 @@ def oracle_malformed(ctx) -> None:
 
 def oracle_e2e(ctx) -> None:
     rng = ctx.rng
-    ntables = 45 if ctx.tier == "quick" else 450
+    ntables = 90 if ctx.tier == "quick" else 900
     nfilters = 10 if ctx.tier == "quick" else 14
     total = 0
     stats = {"all_raise": 0, "empty_result": 0, "nonempty_result": 0, "projected": 0, "empty_tables": 0}
@@ -841,7 +842,7 @@ def corr_build(ctx) -> None:
     import pyarrow as pa
     from datashard import filters
     rng = ctx.rng
-    n = 2400 if ctx.tier == "thorough" else 450
+    n = 5000 if ctx.tier == "thorough" else 600
     exprs, impl, descs = [], [], []
     for _ in range(n):
         kinds = [rng.choice(KINDS), rng.choice(KINDS)]
@@ -918,7 +919,7 @@ def phase_of(flt_py: Optional[Dict[str, Any]]) -> int:
 
 def corr_pipelines(ctx) -> None:
     rng = ctx.rng
-    ntables = 25 if ctx.tier == "quick" else 200
+    ntables = 40 if ctx.tier == "quick" else 400
     nfilters = 8 if ctx.tier == "quick" else 12
     exprs, impl, descs = [], [], []
     order_equal = 0
@@ -941,6 +942,8 @@ def corr_pipelines(ctx) -> None:
             columns = gen_columns(rng, case)
             if columns is not None and rng.random() < 0.06 and flt:
                 columns = columns + ["zz"]         # unknown projected column (with a filter every API raises KeyError)
+            elif rng.random() < 0.05:
+                columns = []                       # empty projection: scan() loses the rows in pa.concat_tables (modelled)
             fpy = sqlref.filter_py(flt)
             ph = phase_of(fpy)
             cols_coq = "None" if columns is None else "(Some [" + "; ".join(str(colnum[c]) for c in columns) + "])"
